@@ -790,7 +790,10 @@ class World:
             sel = ok
             if sel:
                 kids[ck] = sel
-                kw[COLL_ATTR[ck]] = [self.obj(ck, c) for c in sel]
+                objs_ = [self.obj(ck, c) for c in sel]
+                shape = op.get("shape", 0) % 4
+                # constructors take any iterable of children
+                kw[COLL_ATTR[ck]] = [objs_, iter(objs_), tuple(objs_), _oset(objs_)][shape] if kind != "ir" or shape != 3 else objs_
         idx = self.new_node(kind, **kw)
         # model: constructor first adopts the children, then attaches itself
         for ck, sel in kids.items():
